@@ -28,11 +28,13 @@ struct H {
     dropped_on_full: u64,
     wraps: u64,
     last_start: usize,
+    /// sparse observation: while set, nothing is read back after an op (pop's own result is still compared)
+    quiet: bool,
 }
 
 impl H {
     fn new(cap: usize, queue: bool) -> H {
-        H { real: PushBuffer::new(if queue { BufferType::Queue } else { BufferType::Stack }, cap), model: vec![], cap, queue, next: 10, dropped_on_full: 0, wraps: 0, last_start: 0 }
+        H { real: PushBuffer::new(if queue { BufferType::Queue } else { BufferType::Stack }, cap), model: vec![], cap, queue, next: 10, dropped_on_full: 0, wraps: 0, last_start: 0, quiet: false }
     }
     /// unique ids, except that every fifth element is the element type's DEFAULT value (0): a
     /// vacated cell and a stored default must not be confused
@@ -81,8 +83,42 @@ impl H {
                 self.model.clear();
             }
         }
+        if self.quiet {
+            return Ok(());
+        }
         self.observe()
     }
+    /// the reads that take `&self` only (nothing in them can count as a change of the buffer): size, printing,
+    /// iteration, indexed reads. Used at both ends of an unobserved stretch, so that the number of buffer
+    /// operations between two identical reads is exactly the length of the stretch.
+    fn observe_pure(&self) -> Result<(), String> {
+        let n = self.model.len();
+        if self.real.size() != n || self.real.is_empty() != (n == 0) || self.real.is_full() != (n == self.cap) {
+            return Err(format!("size/is_empty/is_full = {}/{}/{} with {} of {} items", self.real.size(), self.real.is_empty(), self.real.is_full(), n, self.cap));
+        }
+        let it: Vec<i32> = self.real.iter().copied().collect();
+        if it != self.model || self.real.iter().len() != n || self.real.iter().count() != n {
+            return Err(format!("iteration {:?} but live items oldest-first are {:?}", it, self.model));
+        }
+        let printed = self.real.to_string();
+        let toks: Vec<i32> = printed.split_whitespace().filter_map(|t| t.parse().ok()).collect();
+        let mut rev = self.model.clone();
+        rev.reverse();
+        if toks != self.model && toks != rev {
+            return Err(format!("to_string {:?} but the live items (oldest first) are {:?}", printed, self.model));
+        }
+        for i in 0..self.cap + 2 {
+            let want = if i < n { Some(if self.queue { self.model[i] } else { self.model[n - 1 - i] }) } else { None };
+            if self.real.get(i).copied() != want || self.real.copy(i) != want {
+                return Err(format!("index {}: get={:?} copy={:?}, model {:?}", i, self.real.get(i), self.real.copy(i), want));
+            }
+        }
+        if self.real.peek_oldest().copied() != self.model.first().copied() || self.real.peek_newest().copied() != self.model.last().copied() {
+            return Err(format!("peek_oldest/peek_newest {:?}/{:?} but live items {:?}", self.real.peek_oldest(), self.real.peek_newest(), self.model));
+        }
+        Ok(())
+    }
+
     /// all read operations + the cursor invariant, after every op
     fn observe(&mut self) -> Result<(), String> {
         let n = self.model.len();
@@ -377,6 +413,61 @@ pub fn run(ctx: &mut Ctx) {
             ctx.rec.case_marker(case, "endurance buffer history");
             run_hist(ctx, *cap, queue, &h);
             ctx.rec.count("endurance_histories", 1);
+        }
+    }
+    // sparse observation (see C16 / C18): read, EXACTLY W unobserved operations, read again
+    // (every stretch length up to 600 as well: an operation may advance such a counter more than once - a forced
+    // push on a full buffer moves both cursors - so that the stale read sits at some W below 2^8; for 16-bit
+    // counters only the listed widths are tried: those are found only if they advance once per operation)
+    let mut widths: Vec<usize> = if ctx.is_fuzz() { vec![255, 256, 257] } else { vec![65535, 65536, 65537, 131072] };
+    if !ctx.is_fuzz() {
+        widths.extend(1..=600usize);
+    }
+    for (wi, w) in widths.iter().enumerate() {
+        for (ci, cap) in [3usize, 10, 100].iter().enumerate() {
+            for queue in [true, false] {
+                case += 1;
+                if !ctx.mine(case) {
+                    continue;
+                }
+                let mut r = Rng::derive(ctx.seed, &[17, 99, wi as u64, ci as u64, queue as u64]);
+                let mixed = r.bool();
+                ctx.rec.case_marker(case, "sparse observation");
+                let res = guarded(|| -> Result<(), String> {
+                    let mut h = H::new(*cap, queue);
+                    h.apply(Op::Push)?;
+                    h.apply(Op::Push)?; // two items, fully read
+                    h.observe_pure()?;
+                    h.quiet = true;
+                    for j in 0..*w {
+                        let op = if mixed {
+                            match r.below(8) {
+                                0..=2 => Op::Push,
+                                3..=4 => Op::Force,
+                                _ => Op::Pop,
+                            }
+                        } else if j % 3 == 2 {
+                            Op::Pop // on a non-empty buffer: every operation of this stretch changes it
+                        } else {
+                            Op::Force
+                        };
+                        h.apply(op)?;
+                    }
+                    h.quiet = false;
+                    h.observe_pure()?;
+                    h.observe()
+                });
+                ctx.rec.count("ops", *w as u64 + 2);
+                ctx.rec.count("sparse_observation_stretches", 1);
+                ctx.rec.max("sparse_observation_longest_unobserved_stretch", *w as u64);
+                ctx.rec.cover(&format!("sparse|W{}|cap{}|{}|{}", if *w <= 600 { (*w / 100) * 100 } else { *w }, cap, queue, mixed));
+                let kind = if queue { "Queue" } else { "Stack" };
+                match res {
+                    Ok(Ok(())) => {}
+                    Ok(Err(t)) => ctx.rec.violation("C17", &format!("PushBuffer<{}>|sparse-observation|mismatch", kind), &format!("{} ; capacity {} ; read, then {} unobserved operations, then read again", t, cap, w), ""),
+                    Err(p) => ctx.rec.violation("C17", &format!("PushBuffer<{}>|sparse-observation|panic|{}", kind, panic_sig(&p)), &p, ""),
+                }
+            }
         }
     }
     ctx.rec.checkpoint();
